@@ -178,6 +178,14 @@ func dqID(v *dqVal) int {
 	return v.id
 }
 
+// dqName is how a value appears in messages and history lines.
+func dqName(v *dqVal) string {
+	if v == nil {
+		return "nil"
+	}
+	return "v" + itoa(v.id)
+}
+
 func (w *dqW) newVal() *dqVal {
 	w.nextID++
 	return &dqVal{id: w.nextID}
@@ -311,6 +319,10 @@ func (w *dqW) do(op, arg int) {
 	case dqShrink:
 		wantPanic = arg < 0
 	case dqIterate:
+		if n > 256 && r.Choose(8, "collect-big") != 0 {
+			op = dqLen // collecting a big deque costs as much as hundreds of other operations
+			break
+		}
 		w.collect()
 		return
 	}
@@ -362,12 +374,15 @@ func (w *dqW) do(op, arg int) {
 			r.Logf("%s(v%d) panicked=%v", name, v.id, panicked)
 		case dqSet:
 			r.Logf("Set(%d, v%d) panicked=%v", arg, v.id, panicked)
-		case dqItem, dqGrow, dqShrink:
-			r.Logf("%s(%d) -> v%d panicked=%v", name, arg, dqID(ret), panicked)
+		case dqItem:
+			r.Logf("Item(%d) -> %s panicked=%v", arg, dqName(ret), panicked)
+		case dqGrow, dqShrink:
+			c, f, b, _ := w.d.VerifState()
+			r.Logf("%s(%d) panicked=%v   (now capacity=%d front=%d back=%d)", name, arg, panicked, c, f, b)
 		case dqLen:
 			r.Logf("Len() -> %d", ln)
 		default:
-			r.Logf("%s() -> v%d panicked=%v", name, dqID(ret), panicked)
+			r.Logf("%s() -> %s panicked=%v", name, dqName(ret), panicked)
 		}
 	}
 	r.Hist(op, arg, dqID(ret), ln, panicked)
@@ -436,7 +451,7 @@ func (w *dqW) do(op, arg int) {
 		mod = dqmPopEmpty
 	}
 	if want != ret {
-		r.Violate("C04", "deque/wrong-return/"+name, "%s(%d) returned v%d, the model says v%d (len %d)", name, arg, dqID(ret), dqID(want), n)
+		r.Violate("C04", "deque/wrong-return/"+name, "%s(%d) returned %s, the model says %s (len %d)", name, arg, dqName(ret), dqName(want), n)
 		return
 	}
 	if w.gcOn && (op == dqPopFront || op == dqPopBack) {
@@ -452,7 +467,21 @@ func (w *dqW) do(op, arg int) {
 	if op == dqGrow || op == dqShrink {
 		c1, front1, _, _ := w.d.VerifState()
 		realloc := c1 != c0 || front1 != front0
-		force = realloc
+		force = realloc && n <= 512
+		if realloc && !force && wrapped0 {
+			// a large wrapped buffer was unwrapped: look at the seam right away (the complete
+			// comparison follows within a number of steps proportional to the size)
+			seam := c0 - front0
+			for i := seam - 2; i <= seam+1; i++ {
+				if i < 0 || i >= n {
+					continue
+				}
+				if got, _, p := w.exec(dqItem, i, nil); p || got != w.m.at(i) {
+					r.Violate("C04", "deque/item-mismatch/after-"+name, "after %s of a wrapped buffer: Item(%d) = %s (panicked=%v), the model says %s (len %d)", name, i, dqName(got), p, dqName(w.m.at(i)), n)
+					return
+				}
+			}
+		}
 		if realloc && wrapped0 {
 			if op == dqShrink {
 				r.Probe("shrink-wrapped")
@@ -505,11 +534,11 @@ func (w *dqW) check(op int, force bool) {
 	}
 	if n > 0 {
 		if f := d.Front(); f != w.m.at(0) {
-			r.Violate("C04", "deque/front-mismatch/after-"+name, "after %s: Front() = v%d, the model says v%d", name, dqID(f), dqID(w.m.at(0)))
+			r.Violate("C04", "deque/front-mismatch/after-"+name, "after %s: Front() = %s, the model says %s", name, dqName(f), dqName(w.m.at(0)))
 			return
 		}
 		if b := d.Back(); b != w.m.at(n-1) {
-			r.Violate("C04", "deque/back-mismatch/after-"+name, "after %s: Back() = v%d, the model says v%d", name, dqID(b), dqID(w.m.at(n-1)))
+			r.Violate("C04", "deque/back-mismatch/after-"+name, "after %s: Back() = %s, the model says %s", name, dqName(b), dqName(w.m.at(n-1)))
 			return
 		}
 	}
@@ -527,7 +556,7 @@ func (w *dqW) check(op int, force bool) {
 		if n > 0 {
 			for _, i := range [...]int{0, n - 1, n / 2, (r.Ops * 7919) % n} {
 				if got := d.Item(i); got != w.m.at(i) {
-					r.Violate("C04", "deque/item-mismatch/"+blame, "after %s: Item(%d) = v%d, the model says v%d (len %d)", name, i, dqID(got), dqID(w.m.at(i)), n)
+					r.Violate("C04", "deque/item-mismatch/"+blame, "after %s: Item(%d) = %s, the model says %s (len %d)", name, i, dqName(got), dqName(w.m.at(i)), n)
 					return
 				}
 			}
@@ -538,7 +567,7 @@ func (w *dqW) check(op int, force bool) {
 	mv := w.m.view()
 	for i, want := range mv {
 		if got := d.Item(i); got != want {
-			r.Violate("C04", "deque/item-mismatch/"+blame, "after %s: Item(%d) = v%d, the model says v%d (len %d)", name, i, dqID(got), dqID(want), n)
+			r.Violate("C04", "deque/item-mismatch/"+blame, "after %s: Item(%d) = %s, the model says %s (len %d)", name, i, dqName(got), dqName(want), n)
 			return
 		}
 	}
@@ -583,7 +612,7 @@ func (w *dqW) collect() {
 			break
 		}
 		if j >= len(mv) || item != mv[j] {
-			r.Violate("C04", "deque/iterate-wrong-item", "an iterator over an unchanged deque of %d items yielded v%d as item %d", len(mv), dqID(item), j)
+			r.Violate("C04", "deque/iterate-wrong-item", "an iterator over an unchanged deque of %d items yielded %s as item %d", len(mv), dqName(item), j)
 			return
 		}
 	}
@@ -625,7 +654,7 @@ func (w *dqW) iterNext(k int) {
 		case panicked:
 			r.Logf("it%d.Next() panicked", it.id)
 		case ok:
-			r.Logf("it%d.Next() -> v%d", it.id, dqID(item))
+			r.Logf("it%d.Next() -> %s", it.id, dqName(item))
 		default:
 			r.Logf("it%d.Next() -> exhausted", it.id)
 		}
@@ -648,7 +677,7 @@ func (w *dqW) iterNext(k int) {
 	}
 	if it.exhausted {
 		if ok {
-			r.Violate("C15", "deque-iter/item-after-exhaustion", "iterator it%d yielded v%d after it had reported exhaustion", it.id, dqID(item))
+			r.Violate("C15", "deque-iter/item-after-exhaustion", "iterator it%d yielded %s after it had reported exhaustion", it.id, dqName(item))
 		}
 		return
 	}
@@ -662,7 +691,11 @@ func (w *dqW) iterNext(k int) {
 	}
 	if !it.started {
 		it.started = true
-		it.s1 = append([]*dqVal(nil), cur...)
+		if it.touched {
+			it.s1 = append([]*dqVal(nil), cur...)
+		} else {
+			it.s1 = it.s0 // no mutator call since creation: the same contents
+		}
 		it.v1 = true
 	}
 	it.addRem = 0
@@ -672,7 +705,7 @@ func (w *dqW) iterNext(k int) {
 		a0 := it.v0 && j < len(it.s0) && (item == it.s0[j] || visible)
 		a1 := it.v1 && j < len(it.s1) && (item == it.s1[j] || visible)
 		if !a0 && !a1 {
-			r.Violate("C15", "deque-iter/wrong-item-after-"+cause, "iterator it%d yielded v%d as its item %d; the contents were %s when it was created and %s at its first Next, position %d now holds %s (blamed modification: %s)", it.id, dqID(item), j, dqDescribe(it.s0), dqDescribe(it.s1), j, dqAt(cur, j), cause)
+			r.Violate("C15", "deque-iter/wrong-item-after-"+cause, "iterator it%d yielded %s as its item %d; the contents were %s when it was created and %s at its first Next, position %d now holds %s (blamed modification: %s)", it.id, dqName(item), j, dqDescribe(it.s0), dqDescribe(it.s1), j, dqAt(cur, j), cause)
 			return
 		}
 		it.v0, it.v1 = a0, a1
